@@ -1,8 +1,9 @@
 SPECIFICATION Spec
 CONSTANTS
-  Depth = 2
+  Depth = 3
+  BinDepth = 4
   Contexts = {1, 2, 3, 4, 5, 6, 7, 8, 9}
-  DeepContexts = {1, 2, 3, 7, 8, 9}
+  DeepContexts = {1}
   Export = TRUE
 INVARIANT Inv
 CHECK_DEADLOCK FALSE
